@@ -1,6 +1,7 @@
 package main
 
 import (
+	"go/token"
 	"fmt"
 	"go/ast"
 	"go/types"
@@ -632,11 +633,34 @@ func (fr *Frame) applyContract(fc *FuncContract, key string, ci ssa.CallInstruct
 		t := fr.safeTr(post, en)
 		enc.assume(Implies(pc, t), "ensures of "+short+" "+en.Where())
 	}
-	// effect class "exit": control does not return
-	for _, fx := range fc.Effects {
-		if fx == "exit" {
-			fr.curPC = tFalse
+	// explicit assumptions of the calling function about what this library call leaves behind
+	if fr.fc != nil {
+		for _, aa := range fr.fc.AfterAssume {
+			if !strings.HasSuffix(key, aa.Kind) {
+				continue
+			}
+			aenv := fr.env(st)
+			aenv.where = aa.Where()
+			aenv.resolve = func(n string) (TV, bool) { return fr.resolveNameAt(n, nil, ci) }
+			// $res0, $res1, ...: the results of this call
+			if sig, ok := ci.Common().Value.Type().Underlying().(*types.Signature); ok || ci.Common().IsInvoke() {
+				if ci.Common().IsInvoke() {
+					sig = ci.Common().Method.Type().(*types.Signature)
+				}
+				for ri := 0; ri < sig.Results().Len() && ri < len(res); ri++ {
+					aenv.vars[fmt.Sprintf("ghost_res%d", ri)] = TV{res[ri], sig.Results().At(ri).Type()}
+				}
+			}
+			fr.resolveState = st
+			t := fr.safeTr(aenv, aa)
+			fr.resolveState = nil
+			enc.assume(Implies(pc, t), "ASSUMED after "+short+": "+aa.Text)
+			w.assumptions["ASSUMED in "+shortTypeName(fr.fn.String())+" after calling "+short+": "+aa.Text] = true
 		}
+	}
+	// os.Exit does not return (a function that merely MAY exit carries the effect class but returns)
+	if key == "os.Exit" {
+		fr.curPC = tFalse
 	}
 	return res
 }
@@ -664,6 +688,24 @@ func (fr *Frame) havocFx(class string) {
 func (fr *Frame) havocAssigns(fc *FuncContract, env0 *Env, st *State) {
 	enc := fr.enc
 	w := enc.w
+	if fc.AssignsAny {
+		// no heap frame: everything but the effect counters and ghost logs is unknown afterwards
+		keep := map[string]*Term{}
+		for k, so := range ghostSorts {
+			keep[k] = st.Get(k, so)
+		}
+		for _, c := range effectClasses {
+			keep["$fx."+c] = st.Get("$fx."+c, "Int")
+		}
+		before := st.clone()
+		st.havocAll()
+		fr.assumeGlobals(st)
+		fr.keepPrivate(before, st)
+		for k, v := range keep {
+			st.Set(k, v)
+		}
+		return
+	}
 	// every target is evaluated in the state before the call (not in the partially havocked one)
 	snap := st.clone()
 	envc := *env0
@@ -810,6 +852,15 @@ func (fr *Frame) assignTargets(x ast.Expr, env *Env) []assignTarget {
 				so := w.sortOf(t)
 				name := heapBoxName(so)
 				env.heap(env.state, name, arraySort("Int", so))
+				return []assignTarget{{name: name, whole: true}}
+			case "arrays":
+				// arrays(T): every backing array of element type T
+				t, err := resolveTypeExpr(e.Args[0], env.scope, w.P)
+				if err != nil {
+					env.fail("%v", err)
+				}
+				name := heapSliceNameT(t)
+				env.heap(env.state, name, arraySort("Int", arraySort("Int", w.sortOf(t))))
 				return []assignTarget{{name: name, whole: true}}
 			case "contents":
 				v := env.tr(e.Args[0])
@@ -1015,13 +1066,28 @@ func (fr *Frame) behaviourOf(v ssa.Value) string {
 				}
 			}
 		}
+	case *ssa.UnOp:
+		// an element of a slice parameter declared "behaves <param> <behaviour>": every element behaves so
+		// (ASSUMED of the callers: listed with the assumptions)
+		if ia, ok := x.X.(*ssa.IndexAddr); ok && x.Op == token.MUL {
+			if p, ok := ia.X.(*ssa.Parameter); ok && fr.fc != nil {
+				for i, q := range fr.fn.Params {
+					if q == p && i < len(fr.fc.Params) {
+						if b := fr.fc.Behaves[fr.fc.Params[i]]; b != "" {
+							w.assumptions["ASSUMED of callers: every element of parameter "+fr.fc.Params[i]+" of "+fr.fc.Key+" behaves as "+b] = true
+							return b
+						}
+					}
+				}
+			}
+		}
 	}
 	return ""
 }
 
 // atCallChecks asserts the function's "atcall" clauses before a matching call.
 func (fr *Frame) atCallChecks(ci ssa.CallInstruction, c *ssa.CallCommon) {
-	if fr.fc == nil || len(fr.fc.AtCalls) == 0 {
+	if fr.fc == nil || len(fr.fc.AtCalls)+len(fr.fc.BeforeAssume) == 0 {
 		return
 	}
 	name := ""
@@ -1032,6 +1098,25 @@ func (fr *Frame) atCallChecks(ci ssa.CallInstruction, c *ssa.CallCommon) {
 	}
 	if name == "" {
 		return
+	}
+	for _, ba := range fr.fc.BeforeAssume {
+		if !strings.HasSuffix(name, ba.Kind) {
+			continue
+		}
+		env := fr.env(fr.cur)
+		env.where = ba.Where()
+		env.resolve = func(n string) (TV, bool) { return fr.resolveNameAt(n, nil, ci) }
+		for ai, a := range c.Args {
+			if _, isLV := fr.lvals[a]; isLV {
+				continue
+			}
+			env.vars[fmt.Sprintf("ghost_arg%d", ai)] = TV{fr.val(a), a.Type()}
+		}
+		fr.resolveState = fr.cur
+		t := fr.safeTr(env, ba)
+		fr.resolveState = nil
+		fr.enc.assume(Implies(fr.curPC, t), "ASSUMED before "+ba.Kind+": "+ba.Text)
+		fr.enc.w.assumptions["ASSUMED in "+shortTypeName(fr.fn.String())+" before calling "+ba.Kind+": "+ba.Text] = true
 	}
 	for i, ac := range fr.fc.AtCalls {
 		if !strings.HasSuffix(name, ac.Kind) {
